@@ -16,6 +16,12 @@ PROPS = {
         "theorems": ["Props.C01", "Props.C01_node"],
         "streams": ["node", "node-rooms", "solve"],
     },
+    "C02": {
+        "module": "Cdecao.Props.C02",
+        "theorems": ["Props.C02_node_bound", "Props.C02_node_mono", "Props.C02_cover", "Props.C02_node_none", "Props.C02_feas_in_sol",
+                     "Props.C02_feas_optimal", "Props.C02_wrong_empty", "Props.C02_compose"],
+        "streams": ["solve-norooms", "node-norooms"],
+    },
     "C03": {
         "module": "Cdecao.Props.C03",
         "theorems": ["Props.C03", "Props.C03_bounded_of_spec"],
@@ -51,6 +57,11 @@ PROPS = {
         "theorems": ["Props.C10_node", "Props.C10_tree"],
         "streams": ["node", "node-rooms", "solve"],
     },
+    "C17": {
+        "module": "Cdecao.Props.C17",
+        "theorems": ["Props.C17_rooms_le_opt"],
+        "streams": ["roompairs", "solve-rooms"],
+    },
     "C19": {
         "module": "Cdecao.Props.C19",
         "theorems": ["Props.C19_no_hang", "Props.C19_bounded_work"],
@@ -71,6 +82,10 @@ _NODE = "run_bab_node / hungarian_algorithm are modelled by N2.runNodeS / H2.run
 LEVELS = {
     "C01": {"text": "Theorem Props.C01: for every well-formed instance, room list, float behaviour, thread count and schedule the incumbent of the engine model (hence the returned assignment) satisfies HardOK; no hypothesis on matching or tree. Tie to the code: node-by-node and trace-by-trace correspondence plus HardOK evaluated in Lean on every assignment the real code returns.",
             "note": _NODE + " " + _ENG + " InstOK (indices in range, each participant instructs at most one course) is the validity premise."},
+    "C02": {"text": "Full statement is false for the unchanged code (known finding F1, class: a participant with own choices instructs a non-fixed course). In the complement class every clause of the node specification is a theorem (bound, mono, cover, none, feas-in-Sol, feas-optimal, wrong-course => empty) and Props.C02_compose (bab_optimal) turns a NodeSpec into optimality of the finished parallel search for all T and schedules; real runs without rooms are compared with an exact brute-force optimum (<= 4 courses, <= 7 participants); a miss outside the F1 class is a violation.",
+            "note": _NODE + " " + _ENG + " Assembly of the clauses into one NodeSpec instance is in progress; until then C02 is proof of every clause + composition theorem, i.e. partial."},
+    "C17": {"text": "Theorem Props.C17_rooms_le_opt: with any room list the reported score is the documented score of an assignment satisfying the hard constraints, hence at most any upper bound of the room-free optimum (all T, schedules). The non-binding half is checked on paired real runs (identical verdict, score and node-by-node identical search trees) and by the brute-force optimum.",
+            "note": _NODE + " The theorem `rooms_nonbinding` (identical node results) is not yet proved; that half is correspondence + paired-run oracle only (partial)."},
     "C03": {"text": "Theorem Props.C03: two finished runs of the engine model on a bounded tree agree on found/score for all thread counts and schedules. For caobab trees the premise Bounded is discharged by NodeSpec only in the class outside finding F1 (assembly pending) and is otherwise checked on every explored tree; real runs under 3-6 seeded schedules x thread counts must agree.",
             "note": _ENG + " Partial for caobab: `Bounded (runNodeS …)` is a named hypothesis of the theorem."},
     "C04": {"text": "Theorems Props.C04_no_deadlock, C04_done_means_finished, C04_stats_step, C04_bounded_work over the engine model, all T >= 1 and schedules incl. spurious wake-ups; every real run under the shim is replayed through the model with all six counters compared, and the shim's deadlock detector and step budget watch the real code.",
